@@ -82,6 +82,10 @@ impl Ev {
 pub struct Case {
     /// initial field text ("" = empty field); parsed with substvars allowed when it contains "${"
     pub init: String,
+    /// how the initial tree is obtained from `init`: "parse" (default), "from_entries"
+    /// (Relations::from(Vec<Entry>) over the parsed entries), "wrap_and_sort" (the canonicalised tree)
+    #[serde(default)]
+    pub init_how: String,
     pub events: Vec<Ev>,
 }
 
@@ -408,6 +412,32 @@ fn run(c: &Case, obs: &mut Obs) -> Result<(), Violation> {
         obs.count("reach.init_rejected_or_misread");
         return Ok(());
     }
+    let (root, model0) = match c.init_how.as_str() {
+        "from_entries" if !substvar0 => {
+            probe::at("Relations::from(Vec<Entry>)");
+            let entries: Vec<Entry> = root.entries().collect();
+            let r = Relations::from(entries);
+            obs.count("reach.init_from_entries");
+            match parse_field(&r.to_string(), false) {
+                Some(m) if impl_structure(&r) == model_structure(&m) && m == model0 => (r, m),
+                _ => return Err(v("model-content", "from_entries", "constructor", format!("Relations::from(entries of {:?}) prints {:?}", c.init, r.to_string()))),
+            }
+        }
+        "wrap_and_sort" if !substvar0 => {
+            probe::at("wrap_and_sort");
+            let r = root.wrap_and_sort();
+            obs.count("reach.init_wrap_and_sort");
+            match parse_field(&r.to_string(), false) {
+                // what wrap_and_sort does to the content is C13 (not claimed): only a readable result is used
+                Some(m) if impl_structure(&r) == model_structure(&m) => (r, m),
+                _ => {
+                    obs.count("reach.init_rejected_or_misread");
+                    return Ok(());
+                }
+            }
+        }
+        _ => (root, model0),
+    };
     let mut l = Live { root, model: model0, entries: BTreeMap::new(), rels: BTreeMap::new() };
     let mut judged_mutations = 0;
     let mut through_handle = false;
@@ -1106,7 +1136,13 @@ impl Scenario for C11 {
             };
             events.push(ev);
         }
-        Case { init, events }
+        let init_how = match rng.below(8) {
+            0 => "from_entries",
+            1 => "wrap_and_sort",
+            _ => "parse",
+        }
+        .to_string();
+        Case { init, init_how, events }
     }
 
     fn execute(c: &Case, obs: &mut Obs) -> Result<(), Violation> {
@@ -1116,13 +1152,16 @@ impl Scenario for C11 {
     fn shrink(c: &Case) -> Vec<Case> {
         let mut out = vec![];
         let n = c.events.len();
+        if c.init_how != "parse" && !c.init_how.is_empty() {
+            out.push(Case { init: c.init.clone(), init_how: "parse".into(), events: c.events.clone() });
+        }
         if n > 1 {
-            out.push(Case { init: c.init.clone(), events: c.events[..n / 2].to_vec() });
+            out.push(Case { init: c.init.clone(), init_how: c.init_how.clone(), events: c.events[..n / 2].to_vec() });
         }
         for i in 0..n {
             let mut e = c.events.clone();
             e.remove(i);
-            out.push(Case { init: c.init.clone(), events: e });
+            out.push(Case { init: c.init.clone(), init_how: c.init_how.clone(), events: e });
         }
         // shrink the initial field: drop entries, then canonicalise layout
         if let Some(m) = parse_field(&c.init, true) {
@@ -1133,13 +1172,13 @@ impl Scenario for C11 {
                 if trailing_comma(&c.init) && !t.is_empty() {
                     t.push(',');
                 }
-                out.push(Case { init: t, events: c.events.clone() });
+                out.push(Case { init: t, init_how: c.init_how.clone(), events: c.events.clone() });
             }
             let canon = field_text(&m);
             if canon != c.init {
-                out.push(Case { init: canon.clone(), events: c.events.clone() });
+                out.push(Case { init: canon.clone(), init_how: c.init_how.clone(), events: c.events.clone() });
                 if trailing_comma(&c.init) {
-                    out.push(Case { init: format!("{canon},"), events: c.events.clone() });
+                    out.push(Case { init: format!("{canon},"), init_how: c.init_how.clone(), events: c.events.clone() });
                 }
             }
             // simplify single relations of the initial field
@@ -1152,7 +1191,7 @@ impl Scenario for C11 {
                             if let EntryM::Alts(x) = &mut mm[i] {
                                 x[j] = simple;
                             }
-                            out.push(Case { init: field_text(&mm), events: c.events.clone() });
+                            out.push(Case { init: field_text(&mm), init_how: c.init_how.clone(), events: c.events.clone() });
                         }
                     }
                 }
@@ -1171,7 +1210,7 @@ impl Scenario for C11 {
             if let Some(s) = simpler {
                 let mut e = c.events.clone();
                 e[i] = s;
-                out.push(Case { init: c.init.clone(), events: e });
+                out.push(Case { init: c.init.clone(), init_how: c.init_how.clone(), events: e });
             }
         }
         out
